@@ -376,15 +376,18 @@ def twin_edit(case, t, over):
     return None
 
 
-def group_call_args(case, over, vspecs, recorder=None):
-    """kwargs for aggregate/window built from the case (all requested aggregates + apply)"""
-    over_arg = over[0] if (case["single"] and len(over) == 1) else over
+def group_call_args(case, over, vspecs, recorder=None, per_name=False):
+    """kwargs for aggregate/window built from the case (all requested aggregates + apply).
+    Lists of exactly two specs are handed over as tuples in half of the cases (decided by the row count): ('g', 'h') means the
+    columns g and h, like ['g', 'h'].  With per_name the recorder is a factory: every apply entry gets its own function."""
+    as_tuple = case["n"] % 2 == 1
+    over_arg = over[0] if (case["single"] and len(over) == 1) else (tuple(over) if (as_tuple and len(over) == 2) else over)
     kw = {}
     for f, idx in case["aggs"].items():
         specs = [vspecs[j] for j in idx]
-        kw[f"{f}_over"] = specs[0] if (case["single"] and len(specs) == 1) else specs
+        kw[f"{f}_over"] = specs[0] if (case["single"] and len(specs) == 1) else (tuple(specs) if (as_tuple and len(specs) == 2) else specs)
     if case["apply"] and recorder is not None:
-        kw["apply"] = {name: (vspecs[j], recorder) for name, j in case["apply"]}
+        kw["apply"] = {name: (vspecs[j], recorder(name) if per_name else recorder) for name, j in case["apply"]}
     return over_arg, kw
 
 
